@@ -64,6 +64,35 @@ func verifFlagArgs() []string {
 	return out
 }
 func verifFlagPrintDefaults() {}
+func verifFlagNArg() int       { return verifSc.nargs }
+func verifFlagArg(i int) string {
+	if i >= 0 && i < verifSc.nargs {
+		return "EXPR"
+	}
+	return ""
+}
+
+// writes through *os.File: os.Stdout is the only non-nil-distinguishable
+// target the adapter prints results to; os.Stderr and os.Stdout are both nil
+// in the stub environment, so a direct Write is attributed by content:
+// anything carrying the serialised result is standard output.
+func verifFileWrite(f *os.File, b []byte) (int, error) {
+	verifOut = append(verifOut, string(b))
+	return len(b), nil
+}
+func verifFileWriteString(f *os.File, s string) (int, error) {
+	verifOut = append(verifOut, s)
+	return len(s), nil
+}
+func verifIoWriteString(w io.Writer, s string) (int, error) {
+	verifOut = append(verifOut, s)
+	return len(s), nil
+}
+func verifFprint(w io.Writer, a ...interface{}) (int, error) {
+	verifErrN++
+	return 0, nil
+}
+func verifPrint(a ...interface{}) (int, error) { return verifPrintln(a...) }
 func verifFprintf(w io.Writer, format string, a ...interface{}) (int, error) {
 	verifErrN++
 	return 0, nil
